@@ -205,3 +205,263 @@ Example C03_instance :
   b_generate_mac toy_tdes toy_aes kbpk [66;48;48;56;48;80;48;84] [1;2;3;4;5;6;7;8]
     = Ok (cmac toy_tdes kbpk ([66;48;48;56;48;80;48;84] ++ [1;2;3;4;5;6;7;8])).
 Proof. vm_compute. repeat split; reflexivity. Qed.
+
+(* ---------------- whole key blocks ---------------- *)
+From Psec Require Import Proofs.Tr31SpecC02 Proofs.Tr31SpecWrap Proofs.Tr31SpecHeader.
+
+(* The Spec spells a key block as
+     spec_block_text hs (ek, mac) = hs ++ hex_upper ek ++ hex_upper mac
+   where hs = spec_header_text <7 fields> total_len items is the header text and
+   each item (id, data, form) is an optional block with its chosen length form
+   (LenShort cases | LenExtended cases ll cases): the encoder's `choices` are
+   the forms (short / extended with any size ll of the length field), the
+   letter case of every hex digit, the pad blocks (any size, any printable
+   filling), the amount of key padding, and - on the decoding side - the hex
+   spelling of the binary section.  [item_ok] is "legal per the standard":
+   2-character alphanumeric id, printable data, a length form that fits. *)
+
+(* forward, cryptographic half: what the version-specific wrap emits for a
+   header text hs is the Spec's binding of (hs, key, tape) *)
+Theorem C03_wrap_b : forall cd ca, ciphers_ok cd ca -> forall kbpk hs key extra tape s,
+  bytes_ok kbpk = true -> bytes_ok key = true -> bytes_ok tape = true ->
+  ascii_str hs -> (length hs mod 8 = 0)%nat ->
+  b_wrap cd ca kbpk hs key extra tape = Ok s ->
+  s = spec_block_text hs (spec_bind_b cd kbpk hs (spec_key_data key tape)) /\
+  length tape = (8 - (2 + length key + extra) mod 8 + extra)%nat /\
+  length s = (length hs + 2 * (2 + length key + length tape) + 2 * 8)%nat.
+Proof. exact wrap_b. Qed.
+Print Assumptions C03_wrap_b.
+
+Theorem C03_wrap_d : forall cd ca, ciphers_ok cd ca -> forall kbpk hs key extra tape s,
+  bytes_ok kbpk = true -> bytes_ok key = true -> bytes_ok tape = true ->
+  ascii_str hs -> (length hs mod 16 = 0)%nat ->
+  d_wrap cd ca kbpk hs key extra tape = Ok s ->
+  s = spec_block_text hs (spec_bind_d ca kbpk hs (spec_key_data key tape)) /\
+  length tape = (16 - (2 + length key + extra) mod 16 + extra)%nat /\
+  length s = (length hs + 2 * (2 + length key + length tape) + 2 * 16)%nat.
+Proof. exact wrap_d. Qed.
+Print Assumptions C03_wrap_d.
+
+Theorem C03_wrap_c : forall cd ca, ciphers_ok cd ca -> forall kbpk hs key extra tape s,
+  bytes_ok kbpk = true -> bytes_ok key = true -> bytes_ok tape = true ->
+  ascii_str hs -> (8 <= length hs)%nat ->
+  c_wrap cd ca kbpk hs key extra tape = Ok s ->
+  s = spec_block_text hs (spec_bind_c cd kbpk hs (spec_key_data key tape)) /\
+  length tape = (8 - (2 + length key + extra) mod 8 + extra)%nat /\
+  length s = (length hs + 2 * (2 + length key + length tape) + 2 * 4)%nat.
+Proof. exact wrap_c. Qed.
+Print Assumptions C03_wrap_c.
+
+(* forward, header half: Header.dump emits the Spec's header text under psec's
+   choices (short form up to 255, else "0002" + 4 digits; upper-case hex; a pad
+   block "PB" filled with '0' exactly when needed) *)
+Theorem C03_header_dump : forall h klen hs, header_ok h -> header_dump h klen = Ok hs ->
+  exists abs ml total_len (pads : list item),
+    algo_block_size (version_id h) = Ok abs /\ (abs = 8 \/ abs = 16)%nat /\
+    key_block_mac_len (version_id h) = Ok ml /\
+    total_len = lenN hs + 4 + 2 * klen + 2 * (N.of_nat abs - (2 + klen) mod N.of_nat abs)
+                + 2 * N.of_nat ml /\
+    total_len < 10000 /\
+    hs = spec_header_text (version_id h) (key_usage h) (algorithm h) (mode_of_use h)
+           (version_num h) (exportability h) (reserved h) total_len (map psec_item (blocks h) ++ pads) /\
+    Forall item_ok (map psec_item (blocks h) ++ pads) /\
+    map item_entry (map psec_item (blocks h)) = blocks h /\
+    Forall (fun it : item => is_pad_id (fst (fst it)) = true) pads /\
+    (length (map psec_item (blocks h) ++ pads) <= 99)%nat /\
+    (length hs mod abs = 0)%nat.
+Proof. exact header_dump_spec. Qed.
+Print Assumptions C03_header_dump.
+
+(* C03_forward: wrap ... = Ok s -> exists choices legal per the standard such
+   that s is the Spec's encoding, with the length field equal to the length of
+   s, a block-multiple header and total length *)
+Theorem C03_forward_b : forall cd ca, ciphers_ok cd ca -> forall kbpk h key mask tape s,
+  header_ok h -> version_id h = [66] ->
+  bytes_ok kbpk = true -> bytes_ok key = true -> bytes_ok tape = true ->
+  kb_wrap cd ca kbpk h key mask tape = Ok s ->
+  exists total_len (pads : list item),
+    let items := map psec_item (blocks h) ++ pads in
+    let hs := spec_header_text (version_id h) (key_usage h) (algorithm h) (mode_of_use h)
+                (version_num h) (exportability h) (reserved h) total_len items in
+    Forall item_ok items /\ map item_entry (map psec_item (blocks h)) = blocks h /\
+    Forall (fun it : item => is_pad_id (fst (fst it)) = true) pads /\
+    (length items <= 99)%nat /\ (length hs mod 8 = 0)%nat /\
+    s = spec_block_text hs (spec_bind_b cd kbpk hs (spec_key_data key tape)) /\
+    total_len = lenN s /\ total_len < 10000 /\
+    ((2 + length key + length tape) mod 8 = 0)%nat /\ (length s mod 8 = 0)%nat.
+Proof. exact forward_b. Qed.
+Print Assumptions C03_forward_b.
+
+Theorem C03_forward_d : forall cd ca, ciphers_ok cd ca -> forall kbpk h key mask tape s,
+  header_ok h -> version_id h = [68] ->
+  bytes_ok kbpk = true -> bytes_ok key = true -> bytes_ok tape = true ->
+  kb_wrap cd ca kbpk h key mask tape = Ok s ->
+  exists total_len (pads : list item),
+    let items := map psec_item (blocks h) ++ pads in
+    let hs := spec_header_text (version_id h) (key_usage h) (algorithm h) (mode_of_use h)
+                (version_num h) (exportability h) (reserved h) total_len items in
+    Forall item_ok items /\ map item_entry (map psec_item (blocks h)) = blocks h /\
+    Forall (fun it : item => is_pad_id (fst (fst it)) = true) pads /\
+    (length items <= 99)%nat /\ (length hs mod 16 = 0)%nat /\
+    s = spec_block_text hs (spec_bind_d ca kbpk hs (spec_key_data key tape)) /\
+    total_len = lenN s /\ total_len < 10000 /\
+    ((2 + length key + length tape) mod 16 = 0)%nat /\ (length s mod 16 = 0)%nat.
+Proof. exact forward_d. Qed.
+Print Assumptions C03_forward_d.
+
+Theorem C03_forward_c : forall cd ca, ciphers_ok cd ca -> forall kbpk h key mask tape s,
+  header_ok h -> (version_id h = [65] \/ version_id h = [67]) ->
+  bytes_ok kbpk = true -> bytes_ok key = true -> bytes_ok tape = true ->
+  kb_wrap cd ca kbpk h key mask tape = Ok s ->
+  exists total_len (pads : list item),
+    let items := map psec_item (blocks h) ++ pads in
+    let hs := spec_header_text (version_id h) (key_usage h) (algorithm h) (mode_of_use h)
+                (version_num h) (exportability h) (reserved h) total_len items in
+    Forall item_ok items /\ map item_entry (map psec_item (blocks h)) = blocks h /\
+    Forall (fun it : item => is_pad_id (fst (fst it)) = true) pads /\
+    (length items <= 99)%nat /\ (length hs mod 8 = 0)%nat /\
+    s = spec_block_text hs (spec_bind_c cd kbpk hs (spec_key_data key tape)) /\
+    total_len = lenN s /\ total_len < 10000 /\
+    ((2 + length key + length tape) mod 8 = 0)%nat /\ (length s mod 8 = 0)%nat.
+Proof. exact forward_c. Qed.
+Print Assumptions C03_forward_c.
+
+(* ... and the Spec itself opens what it binds (the Spec's own round trip) *)
+Theorem C03_spec_roundtrip_b : forall cd ca, ciphers_ok cd ca -> forall kbpk hs clear,
+  bytes_ok kbpk = true -> (length kbpk = 16 \/ length kbpk = 24)%nat ->
+  ascii_str hs -> bytes_ok clear = true -> (8 <= length clear)%nat -> (length clear mod 8 = 0)%nat ->
+  spec_open_b cd kbpk hs (fst (spec_bind_b cd kbpk hs clear)) (snd (spec_bind_b cd kbpk hs clear))
+  = Some clear.
+Proof. exact spec_roundtrip_b. Qed.
+Print Assumptions C03_spec_roundtrip_b.
+
+Theorem C03_spec_roundtrip_d : forall cd ca, ciphers_ok cd ca -> forall kbpk hs clear,
+  bytes_ok kbpk = true -> (length kbpk = 16 \/ length kbpk = 24 \/ length kbpk = 32)%nat ->
+  ascii_str hs -> bytes_ok clear = true -> (16 <= length clear)%nat -> (length clear mod 16 = 0)%nat ->
+  spec_open_d ca kbpk hs (fst (spec_bind_d ca kbpk hs clear)) (snd (spec_bind_d ca kbpk hs clear))
+  = Some clear.
+Proof. exact spec_roundtrip_d. Qed.
+Print Assumptions C03_spec_roundtrip_d.
+
+Theorem C03_spec_roundtrip_c : forall cd ca, ciphers_ok cd ca -> forall kbpk hs clear,
+  bytes_ok kbpk = true -> (length kbpk = 8 \/ length kbpk = 16 \/ length kbpk = 24)%nat ->
+  ascii_str hs -> (8 <= length hs)%nat ->
+  bytes_ok clear = true -> (8 <= length clear)%nat -> (length clear mod 8 = 0)%nat ->
+  spec_open_c cd kbpk hs (fst (spec_bind_c cd kbpk hs clear)) (snd (spec_bind_c cd kbpk hs clear))
+  = Some clear.
+Proof. exact spec_roundtrip_c. Qed.
+Print Assumptions C03_spec_roundtrip_c.
+
+Theorem C03_spec_key_of : forall key pad, 8 * lenN key < 65536 ->
+  spec_key_of (spec_key_data key pad) = key.
+Proof. exact spec_key_of_data. Qed.
+Print Assumptions C03_spec_key_of.
+
+(* reverse, header half: Header.load decodes EVERY legal spelling of the header
+   of h (whatever follows it), consuming exactly the header text *)
+Theorem C03_header_load : forall h0 h total_len (opt pads : list item) tail,
+  header_ok h -> total_len < 10000 ->
+  map item_entry opt = blocks h ->
+  Forall item_ok (opt ++ pads) ->
+  Forall (fun it : item => is_pad_id (fst (fst it)) = true) pads ->
+  (length (opt ++ pads) <= 99)%nat ->
+  let hs := spec_header_text (version_id h) (key_usage h) (algorithm h) (mode_of_use h)
+              (version_num h) (exportability h) (reserved h) total_len (opt ++ pads) in
+  header_load h0 (hs ++ tail) = (h, Ok (length hs)).
+Proof. exact header_load_spec. Qed.
+Print Assumptions C03_header_load.
+
+(* C03_reverse: for ALL choices legal per the standard - block length forms,
+   hex letter case, pad blocks, key padding [pad] of any admissible length, any
+   hex spelling [et] / [mt] of the binary section (letter case per character,
+   white space in the key part) - unwrap returns (h, key) *)
+Theorem C03_reverse_b : forall cd ca, ciphers_ok cd ca ->
+  forall kbpk h key pad (opt pads : list item) total_len et mt,
+  bytes_ok kbpk = true -> (length kbpk = 16 \/ length kbpk = 24)%nat ->
+  bytes_ok key = true -> bytes_ok pad = true -> 8 * lenN key < 65536 ->
+  ((2 + length key + length pad) mod 8 = 0)%nat ->
+  header_ok h -> version_id h = [66] -> map item_entry opt = blocks h ->
+  Forall item_ok (opt ++ pads) -> Forall (fun it : item => is_pad_id (fst (fst it)) = true) pads ->
+  (length (opt ++ pads) <= 99)%nat ->
+  let hs := spec_header_text (version_id h) (key_usage h) (algorithm h) (mode_of_use h)
+              (version_num h) (exportability h) (reserved h) total_len (opt ++ pads) in
+  (length hs mod 8 = 0)%nat ->
+  let em := spec_bind_b cd kbpk hs (spec_key_data key pad) in
+  bytes_fromhex et = Ok (fst em) -> bytes_fromhex mt = Ok (snd em) -> length mt = 16%nat ->
+  let s := hs ++ et ++ mt in
+  total_len = lenN s -> total_len < 10000 -> (length s mod 8 = 0)%nat ->
+  unwrap cd ca kbpk s = Ok (h, key).
+Proof. exact reverse_full_b. Qed.
+Print Assumptions C03_reverse_b.
+
+Theorem C03_reverse_d : forall cd ca, ciphers_ok cd ca ->
+  forall kbpk h key pad (opt pads : list item) total_len et mt,
+  bytes_ok kbpk = true -> (length kbpk = 16 \/ length kbpk = 24 \/ length kbpk = 32)%nat ->
+  bytes_ok key = true -> bytes_ok pad = true -> 8 * lenN key < 65536 ->
+  ((2 + length key + length pad) mod 16 = 0)%nat ->
+  header_ok h -> version_id h = [68] -> map item_entry opt = blocks h ->
+  Forall item_ok (opt ++ pads) -> Forall (fun it : item => is_pad_id (fst (fst it)) = true) pads ->
+  (length (opt ++ pads) <= 99)%nat ->
+  let hs := spec_header_text (version_id h) (key_usage h) (algorithm h) (mode_of_use h)
+              (version_num h) (exportability h) (reserved h) total_len (opt ++ pads) in
+  (length hs mod 16 = 0)%nat ->
+  let em := spec_bind_d ca kbpk hs (spec_key_data key pad) in
+  bytes_fromhex et = Ok (fst em) -> bytes_fromhex mt = Ok (snd em) -> length mt = 32%nat ->
+  let s := hs ++ et ++ mt in
+  total_len = lenN s -> total_len < 10000 -> (length s mod 16 = 0)%nat ->
+  unwrap cd ca kbpk s = Ok (h, key).
+Proof. exact reverse_full_d. Qed.
+Print Assumptions C03_reverse_d.
+
+Theorem C03_reverse_c : forall cd ca, ciphers_ok cd ca ->
+  forall kbpk h key pad (opt pads : list item) total_len et mt,
+  bytes_ok kbpk = true -> (length kbpk = 8 \/ length kbpk = 16 \/ length kbpk = 24)%nat ->
+  bytes_ok key = true -> bytes_ok pad = true -> 8 * lenN key < 65536 ->
+  ((2 + length key + length pad) mod 8 = 0)%nat ->
+  header_ok h -> (version_id h = [65] \/ version_id h = [67]) -> map item_entry opt = blocks h ->
+  Forall item_ok (opt ++ pads) -> Forall (fun it : item => is_pad_id (fst (fst it)) = true) pads ->
+  (length (opt ++ pads) <= 99)%nat ->
+  let hs := spec_header_text (version_id h) (key_usage h) (algorithm h) (mode_of_use h)
+              (version_num h) (exportability h) (reserved h) total_len (opt ++ pads) in
+  let em := spec_bind_c cd kbpk hs (spec_key_data key pad) in
+  bytes_fromhex et = Ok (fst em) -> bytes_fromhex mt = Ok (snd em) -> length mt = 8%nat ->
+  let s := hs ++ et ++ mt in
+  total_len = lenN s -> total_len < 10000 -> (length s mod 8 = 0)%nat ->
+  unwrap cd ca kbpk s = Ok (h, key).
+Proof. exact reverse_full_c. Qed.
+Print Assumptions C03_reverse_c.
+
+(* the canonical spelling (upper-case hex) is one of the admitted spellings *)
+Theorem C03_canonical_hex : forall b, bytes_ok b = true ->
+  bytes_fromhex (hex_upper b) = Ok b /\ length (hex_upper b) = (2 * length b)%nat.
+Proof. intros b Hb. split; [exact (fromhex_hex_upper b Hb) | exact (hex_upper_length b)]. Qed.
+Print Assumptions C03_canonical_hex.
+
+(* an instance with the executable ciphers: the block kb_wrap emits is the
+   Spec's encoding of its own header text, and unwrap opens it *)
+Example C03_whole_block_instance :
+  let g := ex_wrap real_tdes real_aes in
+  let hs := firstn 24 g in
+  g = spec_block_text hs (spec_bind_b real_tdes ex_kbpk hs (spec_key_data ex_key ex_tape)) /\
+  header_load default_header g = (ex_header, Ok 24%nat) /\
+  unwrap real_tdes real_aes ex_kbpk g = Ok (ex_header, ex_key).
+Proof. vm_compute. repeat split; reflexivity. Qed.
+
+(* a liberal spelling of the same key block that psec would never emit: the KS
+   block with an extended, mixed-case length field ("00" "02" "000e"), a pad
+   block of 6 blanks, lower-case hex for the encrypted key, twice the key
+   padding: the premises of C03_reverse_b hold and unwrap opens it *)
+Example C03_liberal_instance :
+  let opt : list item := [([75;83], [49;50;51;52], LenExtended [true;true] 2 [true;true;true;false])] in
+  let pads : list item := [([80;66], [32;32;32;32;32;32], LenShort [false;false])] in
+  let pad := ex_tape ++ [1;2;3;4;5;6;7;8] in
+  let hs := spec_header_text [66] [80;48] [84] [69] [48;48] [78] [48;48] 136 (opt ++ pads) in
+  let em := spec_bind_b real_tdes ex_kbpk hs (spec_key_data ex_key pad) in
+  let s := hs ++ hex_lower (fst em) ++ hex_upper (snd em) in
+  (length hs mod 8 = 0)%nat /\ lenN s = 136 /\
+  bytes_fromhex (hex_lower (fst em)) = Ok (fst em) /\
+  firstn 40 s = [66;48;49;51;54;80;48;84;69;48;48;78;48;50;48;48;
+                 75;83;48;48;48;50;48;48;48;101;49;50;51;52;
+                 80;66;48;97;32;32;32;32;32;32] /\
+  unwrap real_tdes real_aes ex_kbpk s = Ok (ex_header, ex_key).
+Proof. vm_compute. repeat split; reflexivity. Qed.
